@@ -167,6 +167,17 @@ CHECKS = {
              "times are taken from the library and Qt.",
         technique="explicit TLA+ transcription of the documented rules checked by TLC + validation of recorded results of the real code against it",
     ),
+    "C13": dict(
+        engine="QtlJson",
+        level="model_checking",
+        text="QtlJson.tla states JsonObligations over abstract JSON values: the parsed output is one object with exactly the built-in keys "
+             "and the custom attribute names, from which type, text, category, file, function, line and every attribute value (string, "
+             "number, bool, list, map) are recovered exactly, and compact => no line break. TLC evaluates the obligations on every "
+             "recorded result of the real JsonFormatter (both modes); helper functions are checked on concrete values by MC_Json.",
+        design="5/C13",
+        note="Syntactic validity, unescaping and 'exactly one value' are decided by the projection (Python json), not by TLA+.",
+        technique="explicit TLA+ obligations evaluated by TLC on recorded results of the real code (trace validation)",
+    ),
     "C15": dict(
         engine="QtlCategory",
         level="model_checking",
@@ -199,6 +210,18 @@ CHECKS = {
         design="5/C17",
         note="Trusts TLC, the Json community module, and the driver's numbering of handlers in call order.",
         technique=TECH,
+    ),
+    "C18": dict(
+        engine="QtlJson",
+        level="model_checking",
+        text="QtlJson.tla states SentryObligations: 32-hex event id that is fresh over the whole trace (state variable ids), timestamp = "
+             "message time in UTC to the second (IsoUtc), level map, message.formatted, logger iff non-default category, fingerprint "
+             "[level, category or default, first 100 code units], every custom attribute exactly once in its slot or under extra and no "
+             "slot filled without its attribute. TLC evaluates them on every recorded result of the real SentryFormatter (two time zones); "
+             "MC_Json checks the obligations on hand-written good / stale-id / misfiled / wrong-level events.",
+        design="5/C18",
+        note="Parsing is the projection's (Python json); a non-string value in a dedicated slot is accepted as itself or as its usual text.",
+        technique="explicit TLA+ obligations evaluated by TLC on recorded results of the real code (trace validation)",
     ),
 }
 
